@@ -166,8 +166,11 @@ def make_shape(root, seed):
     return obj
 
 
-EXTRA_2D = [("WithDims-slice", 2), ("Chain-TPS", 2)]
-EXTRA_3D = [("WithDims-slice", 3), ("WithDims-int", 3)]
+# boundary letters of the homogeneous family: an AFFINE bottom row (0,...,0,w) with w != 1 (the same map as the matrix
+# divided by w; also negative w), the identity, and a matrix scaled by a tiny / huge factor
+BOUNDARY = ["Homogeneous-affine-w2", "Homogeneous-affine-wneg", "Homogeneous-affine-whalf", "Homogeneous-scaled-1e-3", "Identity-Affine", "Translation-zero", "UniformScale-one"]
+EXTRA_2D = [("WithDims-slice", 2), ("Chain-TPS", 2)] + [(b, 2) for b in BOUNDARY]
+EXTRA_3D = [("WithDims-slice", 3), ("WithDims-int", 3)] + [(b, 3) for b in BOUNDARY]
 
 
 def transform_letters(d):
@@ -187,6 +190,19 @@ def make_transform(spec, seed):
         return mt.WithDims(slice(None, None, -1) if d == 2 else slice(0, 2))
     if name == "WithDims-int":
         return mt.WithDims(1)  # a single number: the dimension axis must be restored by the reshape
+    if name in BOUNDARY:
+        base = np.array(L.transform(("Affine", d, 7), seed).h_matrix, dtype=float)
+        if name.startswith("Homogeneous-affine-w"):
+            w = {"w2": 2.0, "wneg": -1.0, "whalf": 0.5}[name.rsplit("-", 1)[1]]
+            return mt.Homogeneous(base * w)
+        if name == "Homogeneous-scaled-1e-3":
+            full = np.array(L.transform(("Homogeneous", d, 7), seed).h_matrix, dtype=float)
+            return mt.Homogeneous(full * 1e-3)
+        if name == "Identity-Affine":
+            return mt.Affine(np.eye(d + 1))
+        if name == "Translation-zero":
+            return mt.Translation(np.zeros(d))
+        return mt.UniformScale(1.0, d)
     if name == "Chain-TPS":
         return mt.TransformChain([L.transform(("ThinPlateSplines", 2, 5), seed), L.transform(("Rotation", 2, 6), seed), mt.WithDims([1, 0])])
     return L.transform(spec, seed)
